@@ -1,0 +1,6 @@
+//! Facade for the RotoMethods session stream (C10 / C17 tie): the real
+//! per-router read loop `RouterHandler::read_from_router` on any
+//! `AsyncRead`, for a handler that has a compiled `bmp-in` filter installed
+//! (built with `verif::roto::bmp::mk_handler`). Re-export only; the bgp-in
+//! counterpart is `verif::roto::bgp::run_session` (real `Processor::process`).
+pub use crate::units::bmp_tcp_in::verif_hooks_rotomethods::read_from_router;
